@@ -62,6 +62,7 @@ type vpStore struct {
 	watchMode int  // 0: NATS-like (initial value, nil marker, stays open); 1: mock-like (initial value, closed)
 	watchFail bool // Watch() returns an error
 	noEvents  bool // watch events are never delivered (lost)
+	onExpire  func(owner string)  // harness monitor, called when the record is found to have lapsed
 	onWrite   func(by, op string) // harness monitor, called before a successful mutation is applied
 	cut       bool // store unreachable: operations fail/hang according to the handle's fault config
 }
@@ -73,6 +74,9 @@ func vpNewStore(key string, ttl time.Duration) *vpStore {
 func (s *vpStore) expire() {
 	if s.ttl > 0 && s.lastSeq != 0 && !s.tomb {
 		if vpNow()-s.writtenAt >= int64(s.ttl) {
+			if s.onExpire != nil {
+				s.onExpire(s.writer)
+			}
 			s.lastSeq = 0 // silent: MaxAge removes the message, no watch event
 			s.val = nil
 		}
